@@ -79,6 +79,9 @@ Definition dec_s (fuel : nat) (v : val) : option stmt :=
     | Some k', Some i', Some e' => Some (SSetThe k' i' e') | _, _, _ => None end
   | VL [VZ 5; k; o; e] =>
     match get_n k, dec_e fuel o, dec_e fuel e with Some k', Some o', Some e' => Some (SSetAcc k' o' e') | _, _, _ => None end
+  | VL [VZ 6; p; it; mn; e] =>
+    match get_n p, dec_e fuel it, dec_e fuel mn, dec_e fuel e with
+    | Some p', Some i', Some m', Some e' => Some (SSetMenu p' i' m' e') | _, _, _, _ => None end
   | _ => None
   end.
 
@@ -164,6 +167,7 @@ Definition text_okb_s (en : env) (props : list string) (s : stmt) : bool :=
   | SSetObj f _ o v => assignable f && text_okb en o && text_okb en v
   | SSetThe k i v => text_okb en (EThe k i) && negb (starts_with "field(" (render en (pp_tok en (EThe k i)))) && text_okb en v
   | SSetAcc n o v => text_okb en (EAcc n o) && text_okb en v
+  | SSetMenu pid it mn v => text_okb en (EMenu pid it mn) && text_okb en v
   end.
 Definition js_okb_s (en : env) (props : list string) (s : stmt) : bool :=
   match s with
@@ -173,6 +177,7 @@ Definition js_okb_s (en : env) (props : list string) (s : stmt) : bool :=
   | SSetObj f _ o v => assignable f && js_okb en o && js_okb en v
   | SSetThe k i v => js_okb en (EThe k i) && js_okb en v
   | SSetAcc _ _ _ => false
+  | SSetMenu pid it mn v => js_okb en (EMenu pid it mn) && js_okb en v
   end.
 Definition is_qnil (q : prog2) : bool := match q with QNil => true | _ => false end.
 Fixpoint text_okb_q (en : env) (props : list string) (q : prog2) : bool :=
